@@ -61,6 +61,9 @@ def mk_client(st, server_kind, no_delay, tls, keepalive, had_sock):
 def build(E, tier):
     close_fn(E)
     connect_fn(E)
+    # the timeouts / no_delay / keep-alive / TLS options _connect reads are the constructor's arguments
+    from . import clientmodel as cm
+    cm.verify_client_ctor(E, "C06")
 
 
 def close_fn(E):
